@@ -1,0 +1,25 @@
+//go:build verif
+
+package verifhook
+
+import "sync/atomic"
+
+var callback atomic.Value // of func(string)
+
+// Enabled reports that the hooks are compiled in.
+const Enabled = true
+
+// Set installs the callback invoked at every suspension point (nil removes it).
+func Set(fn func(point string)) {
+	if fn == nil {
+		fn = func(string) {}
+	}
+	callback.Store(fn)
+}
+
+// At marks a suspension point and invokes the installed callback, if any.
+func At(point string) {
+	if fn, ok := callback.Load().(func(string)); ok {
+		fn(point)
+	}
+}
